@@ -177,3 +177,26 @@ func thmCRLF(x string) {
 	//@ assert len(g1.BlockStarts) == len(g2.BlockStarts) && forall k int :: 0 <= k && k < len(g1.BlockStarts) ==> g1.BlockStarts[k] == g2.BlockStarts[k]
 	_, _, _, _ = g1, err1, g2, err2
 }
+
+//@ theorem C04.marshalIsWrite
+//@   props C04
+//@   inline BED.MarshalText
+//@   cases b.N in 3..10 else
+//@   requires b != nil && b.N != 11 && b.N != 12
+// MarshalText returns exactly the bytes Write emits, and fails exactly when
+// Write does (MarshalText's body is executed here, Write is replaced by its
+// contract in both places). Stated for records without block lists (N up to 10)
+// and for the refused field counts; with block lists (N = 11, 12) the byte-wise
+// comparison of the two list layouts is left to the bounded clause.
+func thmMarshalIsWrite(b *BED, x int) {
+	t, err := b.MarshalText()
+	buf := &bytes.Buffer{}
+	err2 := b.Write(buf)
+	//@ assert (err == nil) == (err2 == nil)
+	//@ assert err == nil ==> len(t) == len(buf.out)
+	if err == nil && 0 <= x && x < len(t) {
+		//@ assert t[x] == buf.out[x]
+		_ = x
+	}
+	_, _, _ = t, err, err2
+}
